@@ -38,8 +38,9 @@ def form_text_budget(chk):
         buf = rng.choice([50, 300, 1000])
         k = rng.choice([buf - 10, buf - 4, buf - 3, buf - 2, buf, buf + 1, 4 * buf])
         body = b'a=' + b'v' * max(0, k)
-        specs.append({'buf': buf, 'body': body, 'ctype': 'application/x-www-form-urlencoded', 'what': 'forms', 'chunked': False, 'seed': None})
-        metas.append((body, buf, 'raw', None, {'buf': buf, 'n': 1, 'size': k, 'urlencoded': True}))
+        specs.append({'buf': buf, 'body': body, 'ctype': 'application/x-www-form-urlencoded', 'what': 'forms', 'chunked': rng.random() < 0.5,
+                      'seed': rng.randrange(10 ** 9)})
+        metas.append((body, buf, 'urlenc', [{'name': 'a', 'value': 'v' * max(0, k)}], {'buf': buf, 'n': 1, 'size': k, 'urlencoded': True}))
         chk.count(1, ('urlenc', buf, k))
     for (body, buf, kind, fs, m), res in zip(metas, fl.post_batch(specs, time_limit=10.0)):
         t = fl.to_trace(body, buf, kind, fs, res, full=(kind == 'budget' and res.get('one_piece', False)))
@@ -49,7 +50,7 @@ def form_text_budget(chk):
         chk.violation('C13: %s fails: %s text field(s) of about %s bytes with max_memfile_size %s -> status %s, %s bytes of text loaded'
                       % (rel, m['n'], m['size'], m['buf'], t['status'], sum(len(v) for k, vs in t['forms'] for v in vs)),
                       {'buf': m['buf'], 'n': m['n'], 'size': m['size'], 'clauses': rel, 'status': t['status']})
-    fl.validate(chk, by_b, 'C13 form text', {'TextBudget', 'ClientErrorOnly'}, describe)
+    fl.validate(chk, by_b, 'C13 form text', {'TextBudget', 'ClientErrorOnly', 'FormTextRefused', 'FormTextComplete'}, describe)
 
 
 def replay(path):
